@@ -56,6 +56,22 @@ type refEntry struct {
 	size int32
 	zero bool // the current (or just deleted) incarnation was put with size 0
 	role string
+	// 5th offset bytes (off>>35) of all earlier puts of this key (classification of stale 5-byte offsets only)
+	earlierHigh map[int64]bool
+}
+
+// put records a put in the reference entry
+func (e *refEntry) put(off int64, size int32, role string) {
+	eh := e.earlierHigh
+	if e.st != 0 || len(eh) > 0 {
+		if eh == nil {
+			eh = map[int64]bool{}
+		}
+		if e.off != 0 {
+			eh[e.off>>35] = true
+		}
+	}
+	*e = refEntry{st: 1, off: off, size: size, zero: size == 0, role: role, earlierHigh: eh}
 }
 
 type refMap map[uint64]*refEntry
@@ -220,12 +236,15 @@ func resyncAliases(get func(uint64) (int64, int32, bool), ref refMap, key uint64
 }
 
 // offsetDifference names (measurement only) how a stale (offset,size) differs from the expected one.
-func offsetDifference(gotOff, wantOff int64, gotSize, wantSize int32) string {
+func offsetDifference(gotOff, wantOff int64, gotSize, wantSize int32, earlierHigh map[int64]bool) string {
 	if gotSize != wantSize {
 		return "size"
 	}
 	x := uint64(gotOff) ^ uint64(wantOff)
 	if x != 0 && x&((1<<35)-1) == 0 {
+		if earlierHigh[gotOff>>35] {
+			return "5th-offset-byte-of-an-earlier-put-of-this-key"
+		}
 		return "only-5th-offset-byte"
 	}
 	return "offset"
@@ -273,7 +292,7 @@ func checkGet(level, impl string, got func(uint64) (int64, int32, bool), ref ref
 			}
 			e.st = 2
 		} else if off != e.off || size != e.size {
-			diff = offsetDifference(off, e.off, size, e.size)
+			diff = offsetDifference(off, e.off, size, e.size, e.earlierHigh)
 			if viol("stale-entry", "lookup of a live key returned another (offset,size) than the latest put") {
 				return false
 			}
@@ -309,7 +328,7 @@ func runValueCase(c vcase) (res bool) {
 		switch o.Kind {
 		case "S":
 			m.Set(o.Key, o.Off, o.Size)
-			*e = refEntry{st: 1, off: o.Off, size: o.Size, zero: o.Size == 0, role: o.Role}
+			e.put(o.Off, o.Size, o.Role)
 			r.Count("vm_set", 1)
 		case "D":
 			got := m.Delete(o.Key)
@@ -386,7 +405,7 @@ func checkVisit(impl string, m vmap, ref refMap, detail interface{}) bool {
 			if isDeletedSize(size) || off != e.off || size != e.size {
 				bad, badKey, inputOf = "visit-stale-entry", k, inputClass(e, "")
 				if !isDeletedSize(size) {
-					visitDiff = offsetDifference(off, e.off, size, e.size)
+					visitDiff = offsetDifference(off, e.off, size, e.size, e.earlierHigh)
 				}
 			}
 		case e.st == 2:
@@ -525,7 +544,7 @@ func valueMapPart() {
 	r.Note(build+".valuemap_exhaustive", fmt.Sprintf("all sequences of <=%d ops (Set/Delete) and <=%d ops (Set/SetSizeZero/Delete) over 4 keys (existing, in-window, overflow, beyond-end) on a section prefilled with %d sparse keys", r.Pick(3, 4), r.Pick(3, 4), P))
 
 	// random long sequences with adversarial key orders
-	nseq, nops := r.Pick(18, 120), r.Pick(3000, 5000)
+	nseq, nops := r.Pick(18, 72), r.Pick(3000, 5000)
 	gens := []string{"ascending", "descending", "backjump-small", "backjump-large", "duplicates", "span"}
 	for s := 0; s < nseq; s++ {
 		gen := gens[s%len(gens)]
@@ -575,7 +594,7 @@ func runValueCaseNoLog(c vcase) bool {
 		switch o.Kind {
 		case "S":
 			m.Set(o.Key, o.Off, o.Size)
-			*e = refEntry{st: 1, off: o.Off, size: o.Size, zero: o.Size == 0, role: o.Role}
+			e.put(o.Off, o.Size, o.Role)
 		case "D":
 			got := m.Delete(o.Key)
 			want := int32(0)
@@ -906,7 +925,7 @@ func runNmCaseQuiet(c nmcase, dir string) bool {
 			if o.Size == 0 {
 				hasZero = true
 			}
-			*e = refEntry{st: 1, off: o.Off, size: o.Size, zero: o.Size == 0, role: o.Role}
+			e.put(o.Off, o.Size, o.Role)
 			r.Count("nm_put", 1)
 		case "D":
 			if !(e.st == 1 && e.size > 0) {
@@ -996,7 +1015,12 @@ func runNmCaseQuiet(c nmcase, dir string) bool {
 				sig := lib.Sig{"op": "reload", "class": "lookup-differs", "live_kind": c.Kind, "reload_kind": rk, "level": "needlemap",
 					"input": inputClass(e, ""), "build": build}
 				if l1 && l2 {
-					sig["difference"] = offsetDifference(o2, o1, s2, s1)
+					// either side may hold the stale byte (the section layout differs between running and replayed map)
+					d := offsetDifference(o2, e.off, s2, e.size, e.earlierHigh)
+					if o2 == e.off {
+						d = offsetDifference(o1, e.off, s1, e.size, e.earlierHigh)
+					}
+					sig["difference"] = d
 				}
 				if congruent && (c.Kind == "memory" || rk == "memory") {
 					sig["alias"] = aliasTag
@@ -1252,7 +1276,7 @@ func needleMapPart() {
 	}
 
 	// random sequences: <=500 keys where counters of the bloom-filter loaders are compared
-	nseq := r.Pick(12, 96)
+	nseq := r.Pick(12, 60)
 	gens := []string{"ascending", "descending", "backjump-small", "backjump-large", "duplicates", "span"}
 	for s := 0; s < nseq; s++ {
 		gen := gens[s%len(gens)]
@@ -1555,6 +1579,13 @@ func runVolCase(c volcase) bool {
 				if bl != al || (bl && (a.Len != b.Len || a.Sum != b.Sum)) {
 					e := get(k)
 					sig := lib.Sig{"op": "reload", "class": "lookup-differs", "live_kind": c.Kind, "reload_kind": c.Kind, "level": "volume", "input": inClass(e), "build": build}
+					if c.Kind == "memory" {
+						for k2 := range ref {
+							if k2 != k && (k2%(1<<32)) == (k%(1<<32)) {
+								sig["alias"] = aliasTag // the history holds another key congruent modulo 2^32 (memory map: aliasing defect)
+							}
+						}
+					}
 					if r.Violation(sig, map[string]interface{}{"msg": "read after reopen differs from read before", "key": k, "before": b, "after": a, "at": i, "case": c}) {
 						okAll = false
 					}
@@ -1575,7 +1606,7 @@ func runVolCase(c volcase) bool {
 }
 
 func volumePart() {
-	nseq := r.Pick(6, 40)
+	nseq := r.Pick(6, 24)
 	for s := 0; s < nseq; s++ {
 		kind := "memory"
 		if s%3 == 2 {
